@@ -747,3 +747,313 @@ Proof.
 Qed.
 
 End Run.
+
+(* ------------------------------------------------------------------ *)
+(* 6. the whole dump                                                   *)
+(* ------------------------------------------------------------------ *)
+
+Lemma is_first_app1 : forall gs G x ind gi, is_first (mkSS (gs ++ [G]) x ind gi) = false.
+Proof. intros gs G x ind gi. unfold is_first. cbn [goroutines]. destruct gs; reflexivity. Qed.
+
+Lemma steps_blank : forall v gs cur x gi,
+  forallb is_space_tab (pv_indent v) = true -> end_state x ->
+  steps (mkSS (gs ++ [cur]) x (pv_indent v) gi) [blank_line v] =
+  Some (mkSS (gs ++ [cur]) betweenRoutine (pv_indent v) gi).
+Proof.
+  intros v gs cur x gi Hind Hx. apply steps_one.
+  - destruct Hx as [-> | [-> | ->]]; reflexivity.
+  - rewrite scan_blank; [|reflexivity|exact Hind]. apply step_blank. exact Hx.
+Qed.
+
+Lemma dump_lines_cons2 : forall v g g' gs,
+  dump_lines v (g :: g' :: gs) =
+  map (phys_line v) (print_goroutine_lines v g) ++ [blank_line v] ++ dump_lines v (g' :: gs).
+Proof. reflexivity. Qed.
+
+Theorem steps_dump : forall v gs' g s,
+  forallb is_space_tab (pv_indent v) = true -> fi_ok (pv_findent v) ->
+  start_state v s -> forallb (wf_goroutine (pv_findent v)) (g :: gs') = true ->
+  exists x, end_state x /\
+    steps s (dump_lines v (g :: gs')) =
+    Some (mkSS (goroutines s ++ goroutine_of (is_first s) g :: map (goroutine_of false) gs')
+               x (pv_indent v) (gindex s)).
+Proof.
+  intros v gs'. induction gs' as [|g' rest IH]; intros g s Hind Hfi Hstart Hwf.
+  - cbn [forallb] in Hwf. apply andb_true_iff in Hwf as [Hg _].
+    destruct (steps_goroutine v Hind Hfi g s Hstart Hg) as (x & Hx & Hsteps).
+    exists x. split; [exact Hx|]. exact Hsteps.
+  - cbn [forallb] in Hwf. apply andb_true_iff in Hwf as [Hg Hrest].
+    destruct (steps_goroutine v Hind Hfi g s Hstart Hg) as (x & Hx & Hsteps).
+    rewrite dump_lines_cons2.
+    rewrite (steps_app _ _ _ _ Hsteps).
+    rewrite (steps_app _ _ _ _ (steps_blank v _ _ x _ Hind Hx)).
+    destruct (IH g' (mkSS (goroutines s ++ [goroutine_of (is_first s) g]) betweenRoutine (pv_indent v) (gindex s))
+                 Hind Hfi) as (x' & Hx' & Hsteps').
+    + right. split; reflexivity.
+    + exact Hrest.
+    + exists x'. split; [exact Hx'|]. rewrite Hsteps'. rewrite is_first_app1.
+      cbn [goroutines gindex map]. rewrite <- app_assoc. reflexivity.
+Qed.
+
+Definition all_lines (v : p_variant) (d : list p_goroutine) (trailing : bool) : list bytes :=
+  dump_lines v d ++ (if trailing then [blank_line v] else []).
+
+Lemma print_dump_eq : forall v d trailing, print_dump v d trailing = List.concat (all_lines v d trailing).
+Proof. reflexivity. Qed.
+
+Lemma wf_dump_spec : forall v d, wf_dump v d = true ->
+  forallb is_space_tab (pv_indent v) = true /\ fi_ok (pv_findent v) /\ d <> [] /\
+  forallb (wf_goroutine (pv_findent v)) d = true.
+Proof.
+  intros v d H. unfold wf_dump in H.
+  apply andb_true_iff in H as [H H3]. apply andb_true_iff in H as [H1 H2].
+  unfold wf_variant in H1. apply andb_true_iff in H1 as [Hi Hf].
+  split; [exact Hi|]. split.
+  - unfold fi_ok. destruct (pv_findent v); [exact I|]. apply Nat.ltb_lt. exact Hf.
+  - split; [destruct d; [discriminate|discriminate]|exact H3].
+Qed.
+
+(* (e.3) scanning all the lines of a printed dump from the initial state *)
+Theorem steps_all : forall v d trailing,
+  wf_dump v d = true ->
+  exists sfin,
+    steps ss0 (all_lines v d trailing) = Some sfin /\
+    goroutines sfin = snapshot_of d /\ state_eqb (st sfin) done = false.
+Proof.
+  intros v d trailing Hwf. destruct (wf_dump_spec v d Hwf) as (Hind & Hfi & Hne & Hgs).
+  destruct d as [|g gs']; [congruence|].
+  destruct (steps_dump v gs' g ss0 Hind Hfi) as (x & Hx & Hsteps).
+  - left. split; reflexivity.
+  - exact Hgs.
+  - unfold all_lines. rewrite (steps_app _ _ _ _ Hsteps).
+    change (goroutines ss0 ++ goroutine_of (is_first ss0) g :: map (goroutine_of false) gs')
+      with (snapshot_of (g :: gs')).
+    destruct trailing.
+    + assert (E : snapshot_of (g :: gs') <> []) by discriminate.
+      destruct (exists_last E) as (l & G & El). rewrite El.
+      rewrite (steps_blank v l G x _ Hind Hx).
+      eexists. split; [reflexivity|]. split; [reflexivity|reflexivity].
+    + eexists. split; [reflexivity|]. split; [reflexivity|].
+      destruct Hx as [-> | [-> | ->]]; reflexivity.
+Qed.
+
+(* ------------------------------------------------------------------ *)
+(* 7. physical lines: one LF, at the end                               *)
+(* ------------------------------------------------------------------ *)
+
+Definition line_ok (l : bytes) : Prop := exists t, l = t ++ [LF] /\ no_byte LF t = true.
+
+Lemma space_tab_no_lf : forall ind, forallb is_space_tab ind = true -> no_byte LF ind = true.
+Proof. intros ind H. apply (forallb_no_byte is_space_tab); [reflexivity|exact H]. Qed.
+
+Lemma phys_line_ok : forall v l,
+  forallb is_space_tab (pv_indent v) = true -> no_byte LF l = true -> line_ok (phys_line v l).
+Proof.
+  intros v l Hind Hl. unfold phys_line, eol.
+  exists (pv_indent v ++ l ++ (if pv_crlf v then [CR] else [])). split.
+  - destruct (pv_crlf v); rewrite <- !app_assoc; reflexivity.
+  - rewrite !no_byte_app, (space_tab_no_lf _ Hind), Hl. destruct (pv_crlf v); reflexivity.
+Qed.
+
+Lemma blank_line_ok : forall v, forallb is_space_tab (pv_indent v) = true -> line_ok (blank_line v).
+Proof.
+  intros v Hind. unfold blank_line, eol.
+  exists ((if pv_blank_indents v then pv_indent v else []) ++ (if pv_crlf v then [CR] else [])). split.
+  - destruct (pv_crlf v); rewrite <- !app_assoc; reflexivity.
+  - rewrite no_byte_app. destruct (pv_blank_indents v); destruct (pv_crlf v);
+      rewrite ?(space_tab_no_lf _ Hind); reflexivity.
+Qed.
+
+Lemma wf_opaque_no_lf : forall s, wf_opaque s = true -> no_byte LF s = true.
+Proof. intros s H. unfold wf_opaque in H. apply andb_true_iff in H as [_ H]. exact H. Qed.
+
+Lemma header_no_lf : forall g,
+  wf_state (pg_state g) = true -> wf_annot (pg_annot g) = true -> no_byte LF (print_header g) = true.
+Proof.
+  intros g Hstate Hannot. destruct (wf_state_spec _ Hstate) as (_ & _ & Hlf & _).
+  rewrite print_header_eq, !no_byte_app.
+  rewrite (dec_no_byte LF (pg_id g) eq_refl).
+  rewrite (bracket_text_no_byte LF g Hlf eq_refl eq_refl).
+  assert (Ha : no_byte LF (print_annot (pg_annot g)) = true).
+  { destruct (pg_annot g) as [[gp m mp]|]; [|reflexivity].
+    cbn [wf_annot an_gp an_m an_mp] in Hannot.
+    apply andb_true_iff in Hannot as [Hannot Hmp]. apply andb_true_iff in Hannot as [Hgp Hm].
+    unfold print_annot. cbn [an_gp an_m an_mp].
+    rewrite !no_byte_app, (wf_opaque_no_lf _ Hgp), (wf_opaque_no_lf _ Hm).
+    destruct mp as [z|]; [rewrite no_byte_app, (wf_opaque_no_lf _ Hmp)|]; reflexivity. }
+  rewrite Ha. reflexivity.
+Qed.
+
+Lemma func_line_no_lf : forall s args el, wf_sym s = true -> no_byte LF (print_func_line s args el) = true.
+Proof.
+  intros s args el Hs. unfold print_func_line. rewrite !no_byte_app.
+  rewrite (nosp_no_byte LF _ eq_refl (sym_raw_nosp s Hs)).
+  rewrite (print_args_no_byte LF args el eq_refl). reflexivity.
+Qed.
+
+Lemma hex0x_no_lf : forall n, no_byte LF (hex0x n) = true.
+Proof.
+  intros n. unfold hex0x. rewrite no_byte_app. apply andb_true_iff. split; [reflexivity|].
+  apply hex_no_byte. reflexivity.
+Qed.
+
+Lemma findent_no_lf : forall fi, no_byte LF (print_findent fi) = true.
+Proof.
+  intros [|k]; [reflexivity|]. cbn [print_findent].
+  induction k as [|k IH]; [reflexivity|]. cbn [repeat]. rewrite no_byte_cons, IH. reflexivity.
+Qed.
+
+Lemma file_line_no_lf : forall fi file line off regs,
+  wf_file fi file = true -> no_byte LF (print_file_line fi file line off regs) = true.
+Proof.
+  intros fi file line off regs Hwf. destruct (wf_file_spec _ _ Hwf) as (Hlf & _).
+  unfold print_file_line. rewrite !no_byte_app, findent_no_lf, Hlf, (dec_no_byte LF line eq_refl).
+  assert (Ho : no_byte LF (print_off off) = true).
+  { destruct off as [o|]; [|reflexivity]. unfold print_off. rewrite no_byte_app, hex0x_no_lf. reflexivity. }
+  assert (Hr : no_byte LF (print_regs regs) = true).
+  { destruct regs as [[fp sp pc]|]; [|reflexivity]. unfold print_regs. cbn [r_fp r_sp r_pc].
+    rewrite !no_byte_app, !hex0x_no_lf.
+    destruct pc as [pc|]; [rewrite no_byte_app, hex0x_no_lf|]; reflexivity. }
+  rewrite Ho, Hr. reflexivity.
+Qed.
+
+Lemma elide_no_lf : forall e, no_byte LF (print_elide e) = true.
+Proof.
+  intros [|n]; [reflexivity|]. unfold print_elide.
+  rewrite !no_byte_app, (dec_no_byte LF n eq_refl). reflexivity.
+Qed.
+
+Lemma frames_lines_no_lf : forall fi fs i elide,
+  forallb (wf_frame fi) fs = true ->
+  Forall (fun l => no_byte LF l = true) (print_frames_lines fi i fs elide).
+Proof.
+  intros fi fs. induction fs as [|fr fs IH]; intros i elide Hwf; [constructor|].
+  cbn [forallb] in Hwf. apply andb_true_iff in Hwf as [Hfr Hfs].
+  destruct (wf_frame_spec _ _ Hfr) as (Hs & _ & Hfile & _).
+  cbn [print_frames_lines print_frame_lines app].
+  constructor; [apply func_line_no_lf; exact Hs|].
+  constructor; [apply file_line_no_lf; exact Hfile|].
+  apply Forall_app. split; [|apply IH; exact Hfs].
+  destruct elide as [[k e]|]; [|constructor].
+  destruct (Nat.eqb k i); [|constructor]. constructor; [apply elide_no_lf|constructor].
+Qed.
+
+Lemma goroutine_lines_no_lf : forall v g,
+  wf_goroutine (pv_findent v) g = true ->
+  Forall (fun l => no_byte LF l = true) (print_goroutine_lines v g).
+Proof.
+  intros v g Hwf. unfold wf_goroutine in Hwf.
+  apply andb_true_iff in Hwf as [Hwf Hcr]. apply andb_true_iff in Hwf as [Hwf Hbody].
+  apply andb_true_iff in Hwf as [Hwf Hannot]. apply andb_true_iff in Hwf as [Hwf _].
+  apply andb_true_iff in Hwf as [_ Hstate].
+  unfold print_goroutine_lines. cbn [app].
+  constructor; [apply header_no_lf; assumption|].
+  apply Forall_app. split.
+  - destruct (pg_body g) as [|fs el].
+    + constructor; [|constructor]. rewrite no_byte_app, findent_no_lf. reflexivity.
+    + cbn [wf_body] in Hbody. apply andb_true_iff in Hbody as [Hbody _].
+      apply andb_true_iff in Hbody as [_ Hfs]. apply frames_lines_no_lf. exact Hfs.
+  - destruct (pg_creator g) as [c|]; [|constructor].
+    unfold wf_creator in Hcr. apply andb_true_iff in Hcr as [Hcr _].
+    apply andb_true_iff in Hcr as [Hs Hfile]. cbn [print_creator_lines].
+    constructor.
+    + rewrite !no_byte_app, (nosp_no_byte LF _ eq_refl (sym_raw_nosp _ Hs)), in_goroutine_text_nosp_last.
+      reflexivity.
+    + constructor; [apply file_line_no_lf; exact Hfile|constructor].
+Qed.
+
+Lemma dump_lines_ok : forall v d,
+  forallb is_space_tab (pv_indent v) = true ->
+  forallb (wf_goroutine (pv_findent v)) d = true -> Forall line_ok (dump_lines v d).
+Proof.
+  intros v d Hind. induction d as [|g d IH]; intros Hwf; [constructor|].
+  cbn [forallb] in Hwf. apply andb_true_iff in Hwf as [Hg Hd].
+  assert (Hgl : Forall line_ok (map (phys_line v) (print_goroutine_lines v g))).
+  { apply Forall_map. generalize (goroutine_lines_no_lf v g Hg). apply Forall_impl.
+    intros l Hl. apply phys_line_ok; assumption. }
+  destruct d as [|g' d]; [exact Hgl|].
+  rewrite dump_lines_cons2. apply Forall_app. split; [exact Hgl|].
+  apply Forall_app. split; [constructor; [apply blank_line_ok; exact Hind|constructor]|].
+  apply IH. exact Hd.
+Qed.
+
+Lemma all_lines_ok : forall v d trailing, wf_dump v d = true -> Forall line_ok (all_lines v d trailing).
+Proof.
+  intros v d trailing Hwf. destruct (wf_dump_spec v d Hwf) as (Hind & _ & _ & Hgs).
+  unfold all_lines. apply Forall_app. split; [apply dump_lines_ok; assumption|].
+  destruct trailing; [|constructor]. constructor; [apply blank_line_ok; exact Hind|constructor].
+Qed.
+
+(* ------------------------------------------------------------------ *)
+(* 8. ScanSnapshot                                                     *)
+(* ------------------------------------------------------------------ *)
+
+Lemma line_ok_first : forall l rest, line_ok l ->
+  first_line (l ++ rest) = l /\ has_lf (l ++ rest) = true /\ (0 < List.length l)%nat.
+Proof.
+  intros l rest (t & -> & Ht). apply no_byte_In in Ht.
+  rewrite <- app_assoc. cbn [app].
+  split; [apply first_line_lf; exact Ht|]. split; [apply has_lf_split; exact Ht|].
+  rewrite app_length. cbn. lia.
+Qed.
+
+Lemma loop_steps : forall lines s sfin fuel r src fw tr n,
+  steps s lines = Some sfin -> Forall line_ok lines ->
+  stream r src = List.concat lines -> rinv_s r src -> stall_free (sched src) -> final src = EOF ->
+  (List.length (List.concat lines) < fuel)%nat -> state_eqb (st sfin) done = false ->
+  exists ls',
+    scan_loop fuel (mkLoop s r src fw tr n) = Ok (ls', EIo EOF, None) /\
+    l_ss ls' = sfin /\ l_fwd ls' = fw.
+Proof.
+  induction lines as [|l lines IH]; intros s sfin fuel r src fw tr n Hsteps Hok Hstream Hrinv Hsf Hfin Hfuel Hnd.
+  - cbn [steps] in Hsteps. injection Hsteps as <-.
+    destruct fuel as [|f]; [cbn in Hfuel; lia|].
+    rewrite scan_loop_S. cbn [l_ss l_r l_src l_fwd l_trace l_lines]. rewrite Hnd.
+    destruct (read_line_spec r src Hrinv Hsf) as (r' & src' & evs & Hrl & _).
+    cbv zeta in Hrl. rewrite Hstream, Hfin in Hrl. cbn [List.concat first_line] in Hrl.
+    change (line_err [] EOF) with (Some EOF) in Hrl. rewrite Hrl.
+    eexists. split; [reflexivity|]. split; reflexivity.
+  - cbn [steps] in Hsteps.
+    destruct (state_eqb (st s) done) eqn:Hd; [discriminate|].
+    destruct (scan s l) as [[[s1 [|]] [e|]]|m] eqn:Hscan; try discriminate.
+    inversion Hok as [|l0 ls0 Hl Hls]; subst.
+    cbn [List.concat] in *.
+    destruct (line_ok_first l (List.concat lines) Hl) as (Hfl & Hlf & Hlen).
+    destruct fuel as [|f]; [lia|].
+    rewrite scan_loop_S. cbn [l_ss l_r l_src l_fwd l_trace l_lines]. rewrite Hd.
+    destruct (read_line_spec r src Hrinv Hsf) as (r' & src' & evs & Hrl & Hrinv' & Hsf' & Hfin' & Hcons & _).
+    cbv zeta in Hrl, Hcons. rewrite Hstream in Hrl, Hcons. rewrite Hfl in Hrl, Hcons.
+    unfold line_err in Hrl. rewrite Hlf in Hrl. rewrite Hrl.
+    apply app_inv_head in Hcons.
+    destruct l as [|c d0]; [cbn in Hlen; lia|].
+    rewrite Hscan. cbv beta iota zeta.
+    apply IH; try assumption.
+    + rewrite Hfin'. exact Hfin.
+    + rewrite app_length in Hfuel. lia.
+Qed.
+
+(* (e.4) C01: parse fidelity of ScanSnapshot on printed dumps *)
+Theorem fidelity : forall v d trailing sigma,
+  wf_dump v d = true -> stall_free sigma ->
+  exists res,
+    scan_snapshot false (mkSource (print_dump v d trailing) sigma EOF) = Ok res /\
+    snap res = Some (snapshot_of d) /\ fwd res = [] /\ suffix res = [] /\ rerr_out res = EIo EOF.
+Proof.
+  intros v d trailing sigma Hwf Hsf.
+  destruct (steps_all v d trailing Hwf) as (sfin & Hsteps & Hgs & Hnd).
+  unfold scan_snapshot. cbn [rest].
+  destruct (loop_steps (all_lines v d trailing) ss0 sfin
+              (S (S (List.length (print_dump v d trailing)))) reader0
+              (mkSource (print_dump v d trailing) sigma EOF) [] [] 0%nat Hsteps
+              (all_lines_ok v d trailing Hwf)) as (ls' & Hloop & Hss & Hfw).
+  - reflexivity.
+  - apply rinv_s_reader0.
+  - exact Hsf.
+  - reflexivity.
+  - rewrite <- print_dump_eq. lia.
+  - exact Hnd.
+  - rewrite Hloop. eexists. split; [reflexivity|].
+    cbn [snap fwd suffix rerr_out]. rewrite Hss, Hgs, Hnd, Hfw.
+    destruct (wf_dump_spec v d Hwf) as (_ & _ & Hne & _).
+    destruct d as [|g d]; [congruence|]. repeat split; reflexivity.
+Qed.
